@@ -36,7 +36,7 @@ FRESH_FUNCS = {
     'len', 'int', 'float', 'round', 'sum', 'abs', 'isinstance', 'range', 'str', 'any', 'all', 'bool', 'repr',
     'type', 'print', 'hash', 'id', 'callable',
     'math.sqrt', 'math.log', 'math.exp', 'math.sin', 'math.cos', 'copy.deepcopy', 're.match',
-    'importlib.resources.files', 'warnings.warn', 'datetime.datetime.now',
+    'importlib.resources.files', 'warnings.warn', 'datetime.datetime.now', 'scippneutron.io._files.open_or_pass',
     'ValueError', 'TypeError', 'RuntimeError', 'NotImplementedError', 'KeyError', 'IndexError', 'Exception',
 }
 # f(x, ...): returns x itself iff a condition on x's unit/dtype holds (given the keyword), else a new object
@@ -47,7 +47,7 @@ SHALLOW_FUNCS = {'dict', 'list', 'tuple', 'set', 'frozenset', 'sorted', 'reverse
 # methods, by name (the receiver's type is not known to the translator)
 M_FRESH = {'min', 'max', 'mean', 'sum', 'nanmin', 'nanmax', 'nansum', 'any', 'all', 'norm', 'convert', 'is_edges',
            'startswith', 'endswith', 'rstrip', 'strip', 'lstrip', 'split', 'join', 'format', 'lower', 'upper',
-           'encode', 'decode', 'replace', 'readline', 'read', 'write', 'open', 'joinpath', 'issubset', 'union',
+           'encode', 'decode', 'replace', 'splitlines', 'ljust', 'rjust', 'readline', 'read', 'write', 'open', 'joinpath', 'issubset', 'union',
            'intersection', 'difference', 'count', 'index', 'keys', 'isoformat', 'total_seconds'}
 M_MAYBE = {'to': 'copy', 'astype': 'copy', 'transpose': None, 'flatten': None, 'fold': None, 'broadcast': None,
            'squeeze': None, 'rename_dims': None, 'rename': None, 'reshape': None, 'ravel': None}
@@ -195,6 +195,11 @@ class Gen:
 
     def run(self, roots):
         for r in roots:
+            if r.endswith('.*props'):
+                mk, cn = r.split('.')[:2]
+                for pn in sorted(self.mods[mk].classes[cn].props):
+                    self.request(f'{mk}.{cn}.{pn}')
+                continue
             self.request(r)
         while self.pending:
             key = self.pending.pop(0)
@@ -582,10 +587,24 @@ class ExprMixin:
                 subs.append(self.expr(ctx, n))
         return [x for x in subs if x != 'ENone']
 
+    def is_cached(self, key):
+        lk = self.lookup(key)
+        if lk is None or lk[2] is None:
+            return False
+        return any(ast.unparse(d).split('(')[0].split('.')[-1] in ('lru_cache', 'cache', 'cached_property')
+                   for d in lk[2].decorator_list)
+
     def ecall(self, ctx, keys, args):
         for k in keys:
             self.request(k)
             ctx.callees.add(k)
+        cached = [k for k in keys if self.is_cached(k)]
+        if cached:
+            # a memoised callee hands out the object stored in its cache: a module-level object
+            g = 'cache:' + cached[0]
+            ctx.globals_read.add(g)
+            call = f'(ECall {cl([self.fid(k) for k in keys])} {cl([f"({cq(p)}, {e})" for p, e in args])})'
+            return f'(EUnion [{call}; EGlobal {self.global_id(g)}])'
         return f'(ECall {cl([self.fid(k) for k in keys])} {cl([f"({cq(p)}, {e})" for p, e in args])})'
 
     def fid(self, key):
@@ -727,7 +746,7 @@ class CallMixin:
             a = self.all_args(ctx, call)
             return f'(EUnion {cl(a + [f"(EElem {x})" for x in a])})'
         if d == 'next':
-            return f'(EElem {self.expr(ctx, call.args[0])})'
+            return f'(EMut {self.expr(ctx, call.args[0])} [])'      # advances the iterator (a mutation of it), returns an element
         if d == 'iter':
             return self.expr(ctx, call.args[0])
         if d in ('zip', 'itertools.product'):
@@ -933,11 +952,17 @@ class StmtMixin:
         if isinstance(t, ast.Subscript):
             ob = self.expr(ctx, t.value)
             ix = t.slice
+            # a class of this module with its own __setitem__ may be the receiver
+            user = [k for k in self.methods_named('__setitem__') if k.split('.')[0] == ctx.mod.key]
+            extra = []
+            if user:
+                pos = self.signature(user[0])[0]
+                extra = [f'SExpr {self.ecall(ctx, user, [("self", ob), (pos[-1], val)])}']
             if isinstance(ix, ast.Constant) and isinstance(ix.value, str):
-                return self.flush(ctx) + [f'SSetField {ob} {cq(ix.value)} {val}']
+                return self.flush(ctx) + [f'SSetField {ob} {cq(ix.value)} {val}'] + extra
             effs = self.index_subs(ctx, ix)
             pre = self.flush(ctx)
-            return pre + ([f'SExpr (EEff {cl(effs)} ENone)'] if effs else []) + [f'SSetElem {ob} {val}']
+            return pre + ([f'SExpr (EEff {cl(effs)} ENone)'] if effs else []) + [f'SSetElem {ob} {val}'] + extra
         raise Unsupported(f'assignment target {type(t).__name__} (line {t.lineno})')
 
     def block(self, ctx, stmts):
